@@ -399,3 +399,29 @@ func c02Large(c *Ctx, idx int) {
 		}
 	}
 }
+
+// pad-large (thorough only): pad widths of 2^24+1 .. 2^28+1 are legitimate; the result has exactly
+// that many code points.  The reference model does not execute such widths, so the oracle is direct.
+var c02PadLarge = []int{16777217, 67108865, 268435457}
+
+func c02PadLargeN(c *Ctx) int {
+	if c.Tier != "thorough" {
+		return 0
+	}
+	return len(c02PadLarge) * 4
+}
+
+func c02PadLargeRun(c *Ctx, idx int) {
+	w := c02PadLarge[idx%len(c02PadLarge)]
+	form := []string{"length(pad_left('ab', `%d`, '-'))", "length(pad_right('ab', `%d`, '-'))", "length(pad_left('ab', `%d`))", "pad_right('ab', `%d`)[-3:]"}[idx/len(c02PadLarge)]
+	text := fmt.Sprintf(form, w)
+	l := c.LibSearch(text, nil)
+	want := fmt.Sprint(w)
+	if strings.Contains(form, "[-3:]") {
+		want = `"   "`
+	}
+	if l.Panic != nil || l.Err != nil || gen.Describe(l.Res) != want && ShowOut(l) != want {
+		c.Report(Violation{Rule: "C02/model", Expr: text, Got: ShowOut(l), Want: want + " (a width of " + fmt.Sprint(w) + " is a legitimate width: the padded string has that many code points)", Features: map[string]string{"stream": "pad-large"}})
+	}
+	c.Nontrivial(text)
+}
